@@ -90,7 +90,12 @@ class ChunkedTransferReader(object):
         elif bytes_left:
             raise NetworkError('Connection closed.')
 
-        newline_data = yield from self._connection.readline()
+        try:
+            newline_data = yield from self._connection.readline()
+        except ValueError as error:
+            # Line is longer than the stream reader's limit
+            raise ProtocolError(
+                'Error reading newline after chunk.') from error
 
         if len(newline_data) > 2:
             # Should be either CRLF or LF
@@ -115,7 +120,12 @@ class ChunkedTransferReader(object):
         trailer_data_list = []
 
         while True:
-            trailer_data = yield from self._connection.readline()
+            try:
+                trailer_data = yield from self._connection.readline()
+            except ValueError as error:
+                # Line is longer than the stream reader's limit
+                raise ProtocolError(
+                    'Invalid trailer: {0}'.format(error)) from error
 
             trailer_data_list.append(trailer_data)
 
